@@ -607,14 +607,22 @@ func (a *align) RefSites(name string, sites []int) (refsites []int, err error) {
 		return
 	}
 
+	// Length of the reference sequence without gaps
+	reflength := 0
+	for _, site = range seq {
+		if site != GAP {
+			reflength++
+		}
+	}
+
 	mappos := make(map[int]bool)
 	for _, s := range sites {
 		if s < 0 {
 			err = fmt.Errorf("site on reference sequence must be > 0 : %d", s)
 			return
 		}
-		if s >= a.Length() {
-			err = fmt.Errorf("site is outside alignment : %d", s)
+		if s >= reflength {
+			err = fmt.Errorf("site is outside the reference sequence : %d", s)
 			return
 		}
 		mappos[s] = true
